@@ -17,3 +17,16 @@ Example capitalisations :
   lower_ascii (str "True") = str "true" /\ lower_ascii (str "TRUE") = str "true" /\ lower_ascii (str "tRuE") = str "true"
   /\ lower_ascii (str "False") = str "false" /\ lower_ascii (str "FALSE") = str "false".
 Proof. repeat split; reflexivity. Qed.
+
+(* the tournament flag of GameSpy 1: absent means true; the word in any capitalisation; anything else is a parse error *)
+Theorem tournament_spec : forall (m : vmap),
+  (vm_get (str "tournament") m = None -> tournament_of m = Ok (true, map_remove (str "tournament") m))
+  /\ (forall v, vm_get (str "tournament") m = Some v ->
+        (lower_ascii v = str "true" -> tournament_of m = Ok (true, map_remove (str "tournament") m))
+        /\ (lower_ascii v = str "false" -> tournament_of m = Ok (false, map_remove (str "tournament") m))
+        /\ (parse_bool (lower_ascii v) = None -> tournament_of m = Err TypeParse)).
+Proof.
+  intros m. unfold tournament_of, vm_remove. split.
+  - intros H. rewrite H. reflexivity.
+  - intros v H. rewrite H. repeat split; intros E; rewrite E; reflexivity.
+Qed.
